@@ -153,63 +153,92 @@ Definition it_init : it_st := mkIt true 0 false false false 0 0 0.
 Definition it_ok (s : it_st) : bool := negb (it_uaf s).
 
 (* ================================================================== 3. shutdown (main.c, sockets.c)
-   thread 0 = application in rfbShutdownServer: rfbCloseClient(cl); pthread_join(cl->client_thread)
+   ONE client record.
+   thread 0 = application: rfbShutdownServer (rfbCloseClient(cl); pthread_join(client_thread)) and then
+              rfbScreenCleanup, which calls rfbClientConnectionGone for every client STILL LISTED (main.c:1242-1248) -
+              the competing caller of the teardown
    thread 1 = clientInput of the client
-   thread 2 = clientOutput of the client (no update pending: the worst case)
+   thread 2 = clientOutput of the client (no update pending: the worst case for a wake-up; the send path and
+              the onHold sleep loop are NOT modelled)
    thread 3 = any other caller of rfbCloseClient (the client's own input thread on a read error,
               another client's non-shared ClientInit, the application)
    rfbCloseClient: LOCK(updateMutex); TSIGNAL(updateCond); UNLOCK; state = RFB_SHUTDOWN; write(pipe).
-   clientOutput (faithful): tests cl->state WITHOUT the mutex, then LOCK(updateMutex); WAIT. *)
+   clientOutput (before 1b1aba3): tests cl->state WITHOUT the mutex, then LOCK(updateMutex); WAIT. *)
 Record sh_st := mkSh {
   sh_shut : bool;        (* cl->state == RFB_SHUTDOWN *)
   sh_um : nat;           (* updateMutex: 0 free, t+1 owner *)
   sh_wait : bool;        (* clientOutput sleeps in WAIT(updateCond) *)
   sh_gone : nat;         (* rfbClientConnectionGone calls *)
+  sh_inlist : bool;      (* the record is linked in screen->clientHead *)
   sh_pcA : nat; sh_pcI : nat; sh_pcO : nat; sh_pcC : nat
 }.
 Scheme Equality for sh_st.
 
+(* which protocol: *)
+Record sh_cfg := mkCfg {
+  cf_fix1 : bool;        (* 1b1aba3 = notes/fix_C13_1.diff: state set under updateMutex before the signal, clientOutput re-tests after LOCK *)
+  cf_join : bool;        (* the application joins the client thread (rfbShutdownServer) before it goes on to rfbScreenCleanup *)
+  cf_selfail : bool;     (* select() in clientInput may fail (EINTR: a signal handler ran on this thread): main.c:590-593 leaves
+                            the loop WITHOUT state = RFB_SHUTDOWN *)
+  cf_fix4 : bool         (* notes/fix_C13_4.diff: clientInput calls rfbCloseClient(cl) itself when it leaves the loop with
+                            state != RFB_SHUTDOWN *)
+}.
+
 Definition sh_upd (shut : bool) (um : nat) (w : bool) (g : nat) (s : sh_st) : sh_st :=
-  mkSh shut um w g (sh_pcA s) (sh_pcI s) (sh_pcO s) (sh_pcC s).
+  mkSh shut um w g (sh_inlist s) (sh_pcA s) (sh_pcI s) (sh_pcO s) (sh_pcC s).
+(* rfbClientConnectionGone: unlink, clientGoneHook, free *)
+Definition sh_teardown (s : sh_st) : sh_st :=
+  mkSh (sh_shut s) (sh_um s) (sh_wait s) (S (sh_gone s)) false (sh_pcA s) (sh_pcI s) (sh_pcO s) (sh_pcC s).
 Definition sh_pc (t : nat) (s : sh_st) : nat :=
   match t with 0 => sh_pcA s | 1 => sh_pcI s | 2 => sh_pcO s | _ => sh_pcC s end.
 Definition sh_setpc (t v : nat) (s : sh_st) : sh_st :=
   match t with
-  | 0 => mkSh (sh_shut s) (sh_um s) (sh_wait s) (sh_gone s) v (sh_pcI s) (sh_pcO s) (sh_pcC s)
-  | 1 => mkSh (sh_shut s) (sh_um s) (sh_wait s) (sh_gone s) (sh_pcA s) v (sh_pcO s) (sh_pcC s)
-  | 2 => mkSh (sh_shut s) (sh_um s) (sh_wait s) (sh_gone s) (sh_pcA s) (sh_pcI s) v (sh_pcC s)
-  | _ => mkSh (sh_shut s) (sh_um s) (sh_wait s) (sh_gone s) (sh_pcA s) (sh_pcI s) (sh_pcO s) v
+  | 0 => mkSh (sh_shut s) (sh_um s) (sh_wait s) (sh_gone s) (sh_inlist s) v (sh_pcI s) (sh_pcO s) (sh_pcC s)
+  | 1 => mkSh (sh_shut s) (sh_um s) (sh_wait s) (sh_gone s) (sh_inlist s) (sh_pcA s) v (sh_pcO s) (sh_pcC s)
+  | 2 => mkSh (sh_shut s) (sh_um s) (sh_wait s) (sh_gone s) (sh_inlist s) (sh_pcA s) (sh_pcI s) v (sh_pcC s)
+  | _ => mkSh (sh_shut s) (sh_um s) (sh_wait s) (sh_gone s) (sh_inlist s) (sh_pcA s) (sh_pcI s) (sh_pcO s) v
   end.
 Definition SH_OUT_DONE : nat := 7.
 Definition SH_IN_DONE : nat := 6.
+Definition SH_APP_DONE : nat := 6.
 
-(* the four steps of rfbCloseClient, shared by threads 0 and 3.  Faithful: LOCK; TSIGNAL; UNLOCK; state = SHUTDOWN.
-   Repaired (notes/fix_C13_1.diff): LOCK; state = SHUTDOWN; TSIGNAL; UNLOCK. *)
+(* the four steps of rfbCloseClient, shared by threads 0 and 3.  Before 1b1aba3: LOCK; TSIGNAL; UNLOCK; state = SHUTDOWN.
+   Since 1b1aba3 (notes/fix_C13_1.diff): LOCK; state = SHUTDOWN; TSIGNAL; UNLOCK. *)
 Definition sh_close_step (repaired : bool) (t : nat) (s : sh_st) : option sh_st :=
   let next := sh_setpc t (S (sh_pc t s)) in
   match sh_pc t s with
   | 0 => if sh_um s =? 0 then Some (next (sh_upd (sh_shut s) (S t) (sh_wait s) (sh_gone s) s)) else None
   | 1 => Some (next (sh_upd (if repaired then true else sh_shut s) (sh_um s) false (sh_gone s) s))   (* TSIGNAL *)
   | 2 => Some (next (sh_upd (sh_shut s) 0 (sh_wait s) (sh_gone s) s))
-  | 3 => Some (next (sh_upd true (sh_um s) (sh_wait s) (sh_gone s) s))                  (* state = RFB_SHUTDOWN (faithful) *)
+  | 3 => Some (next (sh_upd true (sh_um s) (sh_wait s) (sh_gone s) s))                  (* state = RFB_SHUTDOWN (old order) *)
   | _ => None
   end.
 
-Definition sh_step (repaired : bool) (t : nat) (s : sh_st) : option sh_st :=
+Definition sh_step_cfg (c : sh_cfg) (t : nat) (s : sh_st) : option sh_st :=
+  let repaired := cf_fix1 c in
   let next := sh_setpc t (S (sh_pc t s)) in
   match t with
   | 0 => match sh_pcA s with
-         | 4 => if sh_pcI s =? SH_IN_DONE then Some (next s) else None                  (* pthread_join(client_thread) *)
-         | 5 => None
+         | 4 => if cf_join c
+                then (if sh_pcI s =? SH_IN_DONE then Some (next s) else None)           (* pthread_join(client_thread) *)
+                else Some (next s)
+         | 5 => if sh_inlist s then Some (next (sh_teardown s)) else Some (next s)      (* rfbScreenCleanup: Gone for every client still listed *)
+         | 6 => None
          | _ => sh_close_step repaired 0 s
          end
   | 1 => match sh_pcI s with
-         | 0 => if sh_shut s then Some (next s) else None                               (* while (state != RFB_SHUTDOWN) select... *)
+         | 0 => if sh_shut s then Some (next s)                                         (* while (state != RFB_SHUTDOWN) select... *)
+                else if cf_selfail c
+                     then Some (sh_setpc 1 (if cf_fix4 c then 7 else 1) s)              (* select() < 0: break *)
+                     else None
          | 1 => if sh_um s =? 0 then Some (next (sh_upd (sh_shut s) 2 (sh_wait s) (sh_gone s) s)) else None
          | 2 => Some (next (sh_upd (sh_shut s) (sh_um s) false (sh_gone s) s))          (* TSIGNAL(updateCond) *)
          | 3 => Some (next (sh_upd (sh_shut s) 0 (sh_wait s) (sh_gone s) s))
          | 4 => if sh_pcO s =? SH_OUT_DONE then Some (next s) else None                 (* THREAD_JOIN(output_thread) *)
-         | 5 => Some (next (sh_upd (sh_shut s) (sh_um s) (sh_wait s) (S (sh_gone s)) s)) (* rfbClientConnectionGone *)
+         | 5 => Some (next (sh_teardown s))                                             (* rfbClientConnectionGone *)
+         | 7 => if sh_um s =? 0 then Some (next (sh_upd (sh_shut s) 2 (sh_wait s) (sh_gone s) s)) else None   (* fix 4: rfbCloseClient(cl) *)
+         | 8 => Some (next (sh_upd true (sh_um s) false (sh_gone s) s))                 (*        state = RFB_SHUTDOWN; TSIGNAL *)
+         | 9 => Some (sh_setpc 1 1 (sh_upd (sh_shut s) 0 (sh_wait s) (sh_gone s) s))    (*        UNLOCK *)
          | _ => None
          end
   | 2 => match sh_pcO s with
@@ -226,11 +255,23 @@ Definition sh_step (repaired : bool) (t : nat) (s : sh_st) : option sh_st :=
   | 3 => sh_close_step repaired 3 s
   | _ => None
   end.
-Definition sh_init : sh_st := mkSh false 0 false 0 0 0 0 0.
+(* the protocol the correspondence run and most theorems use: select() never fails, the application joins *)
+Definition sh_step (repaired : bool) : nat -> sh_st -> option sh_st := sh_step_cfg (mkCfg repaired true false false).
+(* threads 0..2 only: rfbShutdownServer, clientInput, clientOutput - no helping second closer *)
+Definition sh_step3 (c : sh_cfg) (t : nat) (s : sh_st) : option sh_st := if t <? 3 then sh_step_cfg c t s else None.
+(* threads 1 and 2 only: the client's own two threads, nobody closes the client *)
+Definition sh_step12 (c : sh_cfg) (t : nat) (s : sh_st) : option sh_st :=
+  match t with 1 => sh_step_cfg c 1 s | 2 => sh_step_cfg c 2 s | _ => None end.
+Definition sh_init : sh_st := mkSh false 0 false 0 true 0 0 0 0.
 Definition sh_final (s : sh_st) : bool :=
-  (sh_pcA s =? 5) && (sh_pcI s =? SH_IN_DONE) && (sh_pcO s =? SH_OUT_DONE) && (sh_pcC s =? 4).
+  (sh_pcA s =? SH_APP_DONE) && (sh_pcI s =? SH_IN_DONE) && (sh_pcO s =? SH_OUT_DONE) && (sh_pcC s =? 4).
+Definition sh_final3 (s : sh_st) : bool :=
+  (sh_pcA s =? SH_APP_DONE) && (sh_pcI s =? SH_IN_DONE) && (sh_pcO s =? SH_OUT_DONE).
+Definition sh_final12 (s : sh_st) : bool :=
+  (sh_pcI s =? SH_IN_DONE) && (sh_pcO s =? SH_OUT_DONE) && (sh_gone s =? 1).
 Definition sh_gone_ok (s : sh_st) : bool :=
-  (sh_gone s <=? 1) && (negb (sh_pcI s =? SH_IN_DONE) || (sh_gone s =? 1)).
+  (sh_gone s <=? 1) && (negb (sh_pcI s =? SH_IN_DONE) || (sh_gone s =? 1)) &&
+  (negb (sh_pcA s =? SH_APP_DONE) || ((sh_gone s =? 1) && negb (sh_inlist s))).
 
 (* ================================================================== 4. thread reclamation (main.c rfbStartOnHoldClient)
    every accepted client gets a JOINABLE thread; it ends by itself when the client disconnects;
@@ -394,32 +435,103 @@ Definition sj_init : sj_st := mkSj 1 false false false 0 0.
 Definition sj_ok (s : sj_st) : bool := negb (sj_uaf s).
 Definition sj_final (s : sj_st) : bool := (sj_pcA s =? 4) && (sj_pcC s =? 2).
 
-(* ================================================================== 5. lock order
-   mutex classes, numbered by their rank: sendMutex of the client at list position k,
-   screen->cursorMutex, updateMutex k, rfbClientListMutex, refCountMutex k, outputMutex k *)
-Definition M_send (k : nat) : nat := 10 + k.
-Definition M_cursor : nat := 100.
-Definition M_upd (k : nat) : nat := 200 + k.
-Definition M_list : nat := 300.
-Definition M_ref (k : nat) : nat := 400 + k.
-Definition M_out (k : nat) : nat := 500 + k.
+(* ================================================================== 4e. rfbNewFramebuffer against a client that goes away / arrives (main.c:1126-1229)
+   ONE client record X.  thread 0 = application in rfbNewFramebuffer:
+     pass 1: an iterator over the OPEN clients (sock >= 0): LOCK(cl->sendMutex);
+     middle: LOCK(cursorMutex), new geometry / format / framebuffer pointer, scaled screens;
+     pass 3: a NEW iterator over the open clients: per-client update, UNLOCK(cl->sendMutex).
+   mode 0: X is an established idle client whose peer has just disconnected; thread 1 = its clientInput thread after
+           the loop (output thread joined): rfbCloseSocket, cl->sock = -1, rfbClientConnectionGone = wait for
+           refCount = 0 and unlink [one step: both are decided under rfbClientListMutex since 97f9e93, fragment 2],
+           clientGoneHook, ..., LOCK(sendMutex); UNLOCK; TINI_MUTEX; free(cl)   (rfbserver.c:669-683).
+   mode 1: X is a connection being accepted; thread 1 = the listener thread in rfbNewClient: links X (sock valid,
+           sendMutex initialised and free) into the list.
+   Each rfbClientIteratorNext is one step (it runs under rfbClientListMutex since 97f9e93). *)
+Record nf_st := mkNf {
+  nf_sock : bool; nf_inlist : bool; nf_ref : nat;
+  nf_send : nat;         (* X's sendMutex: 0 free, 1 held by the application, 2 held by X's own thread *)
+  nf_badunlock : bool;   (* UNLOCK of a mutex the caller does not hold *)
+  nf_freed : bool;
+  nf_pcA : nat; nf_pcB : nat
+}.
+Scheme Equality for nf_st.
+Definition NF_APP_DONE : nat := 7.
+Definition NF_B_DONE : nat := 5.
+Definition nf_step (mode : nat) (t : nat) (s : nf_st) : option nf_st :=
+  let seen := nf_inlist s && nf_sock s in
+  match t with
+  | 0 => match nf_pcA s with
+         | 0 => if seen then Some (mkNf (nf_sock s) (nf_inlist s) (S (nf_ref s)) (nf_send s) (nf_badunlock s) (nf_freed s) 1 (nf_pcB s))
+                else Some (mkNf (nf_sock s) (nf_inlist s) (nf_ref s) (nf_send s) (nf_badunlock s) (nf_freed s) 3 (nf_pcB s))        (* pass 1: Next *)
+         | 1 => if nf_send s =? 0 then Some (mkNf (nf_sock s) (nf_inlist s) (nf_ref s) 1 (nf_badunlock s) (nf_freed s) 2 (nf_pcB s)) else None   (* LOCK(sendMutex) *)
+         | 2 => Some (mkNf (nf_sock s) (nf_inlist s) (pred (nf_ref s)) (nf_send s) (nf_badunlock s) (nf_freed s) 3 (nf_pcB s))       (* Next = NULL: reference dropped *)
+         | 3 => Some (mkNf (nf_sock s) (nf_inlist s) (nf_ref s) (nf_send s) (nf_badunlock s) (nf_freed s) 4 (nf_pcB s))              (* cursorMutex, swap *)
+         | 4 => if seen then Some (mkNf (nf_sock s) (nf_inlist s) (S (nf_ref s)) (nf_send s) (nf_badunlock s) (nf_freed s) 5 (nf_pcB s))
+                else Some (mkNf (nf_sock s) (nf_inlist s) (nf_ref s) (nf_send s) (nf_badunlock s) (nf_freed s) NF_APP_DONE (nf_pcB s)) (* pass 3: Next *)
+         | 5 => if nf_send s =? 1
+                then Some (mkNf (nf_sock s) (nf_inlist s) (nf_ref s) 0 (nf_badunlock s) (nf_freed s) 6 (nf_pcB s))                   (* UNLOCK(sendMutex) *)
+                else Some (mkNf (nf_sock s) (nf_inlist s) (nf_ref s) (nf_send s) true (nf_freed s) 6 (nf_pcB s))                     (* ... of a mutex never locked *)
+         | 6 => Some (mkNf (nf_sock s) (nf_inlist s) (pred (nf_ref s)) (nf_send s) (nf_badunlock s) (nf_freed s) NF_APP_DONE (nf_pcB s))
+         | _ => None
+         end
+  | 1 => match mode with
+         | 0 => match nf_pcB s with
+                | 0 => Some (mkNf false (nf_inlist s) (nf_ref s) (nf_send s) (nf_badunlock s) (nf_freed s) (nf_pcA s) 1)              (* close socket; cl->sock = -1 *)
+                | 1 => if nf_ref s =? 0
+                       then Some (mkNf (nf_sock s) false (nf_ref s) (nf_send s) (nf_badunlock s) (nf_freed s) (nf_pcA s) 2)            (* refCount = 0: unlink *)
+                       else None                                                                                                      (* WAIT(deleteCond) *)
+                | 2 => Some (mkNf (nf_sock s) (nf_inlist s) (nf_ref s) (nf_send s) (nf_badunlock s) (nf_freed s) (nf_pcA s) 3)        (* clientGoneHook *)
+                | 3 => if nf_send s =? 0 then Some (mkNf (nf_sock s) (nf_inlist s) (nf_ref s) 2 (nf_badunlock s) (nf_freed s) (nf_pcA s) 4) else None   (* LOCK(cl->sendMutex) *)
+                | 4 => Some (mkNf (nf_sock s) (nf_inlist s) (nf_ref s) 0 (nf_badunlock s) true (nf_pcA s) NF_B_DONE)                  (* UNLOCK; TINI; free(cl) *)
+                | _ => None
+                end
+         | _ => match nf_pcB s with
+                | 0 => Some (mkNf true true (nf_ref s) (nf_send s) (nf_badunlock s) (nf_freed s) (nf_pcA s) NF_B_DONE)                (* rfbNewClient links X *)
+                | _ => None
+                end
+         end
+  | _ => None
+  end.
+Definition nf_init (mode : nat) : nf_st :=
+  match mode with 0 => mkNf true true 0 0 false false 0 0 | _ => mkNf false false 0 0 false false 0 0 end.
+Definition nf_final (s : nf_st) : bool := (nf_pcA s =? NF_APP_DONE) && (nf_pcB s =? NF_B_DONE).
+(* what must hold once rfbNewFramebuffer has returned: no mutex misuse, X's sendMutex is not left with the application *)
+Definition nf_ok (s : nf_st) : bool := negb (nf_badunlock s) && (negb (nf_pcA s =? NF_APP_DONE) || negb (nf_send s =? 1)).
 
-(* (held, acquired) pairs of the code paths on a true-colour screen, clients 0 and 1 *)
-Definition pairs_client (k : nat) : list (nat * nat) :=
-  [ (M_send k, M_upd k); (M_send k, M_cursor); (M_send k, M_out k);      (* clientOutput -> rfbSendFramebufferUpdate *)
-    (M_send k, M_list); (M_send k, M_ref k);                              (* rfbNewFramebuffer: iterator while holding sendMutex *)
-    (M_cursor, M_upd k); (M_cursor, M_ref k);                             (* rfbSetCursor / rfbNewFramebuffer *)
-    (M_list, M_ref k) ].                                                  (* notes/fix_C13_2.diff: reference taken / tested under the list mutex *)
-Definition lock_table : list (nat * nat) :=
-  pairs_client 0 ++ pairs_client 1 ++
-  [ (M_send 0, M_send 1);                                                  (* rfbNewFramebuffer: every sendMutex in list order *)
-    (M_send 0, M_ref 1); (M_send 1, M_ref 0); (M_send 0, M_upd 1); (M_send 1, M_upd 0);
-    (M_cursor, M_list) ].
+(* ================================================================== 5. lock order
+   Mutexes of a server with N clients, numbered by their rank; k = position of the client in the client list
+   (rfbNewClient links at the head: position order = reverse accept order):
+   sendMutex k < screen->cursorMutex < updateMutex k < rfbClientListMutex < refCountMutex k < outputMutex k *)
+Definition P_send (N k : nat) : nat := k.
+Definition P_cursor (N : nat) : nat := N.
+Definition P_upd (N k : nat) : nat := N + 1 + k.
+Definition P_list (N : nat) : nat := 2 * N + 1.
+Definition P_ref (N k : nat) : nat := 2 * N + 2 + k.
+Definition P_out (N k : nat) : nat := 3 * N + 2 + k.
+
+(* (held, acquired) pairs of the code paths on a true-colour screen, as read from the source (hand-written, not derived) *)
+Definition pairs_client (N k : nat) : list (nat * nat) :=
+  [ (P_send N k, P_upd N k); (P_send N k, P_cursor N); (P_send N k, P_out N k);   (* clientOutput -> rfbSendFramebufferUpdate *)
+    (P_send N k, P_list N); (P_send N k, P_ref N k);                                (* rfbNewFramebuffer: iterator while holding sendMutex *)
+    (P_cursor N, P_upd N k); (P_cursor N, P_ref N k);                               (* rfbSetCursor / rfbNewFramebuffer *)
+    (P_list N, P_ref N k) ].                                                        (* 97f9e93: reference taken / tested under the list mutex *)
+(* pairs that involve two different clients j, k: rfbNewFramebuffer holds every sendMutex, taken in list order *)
+Definition pairs_cross (N j k : nat) : list (nat * nat) :=
+  (if j <? k then [ (P_send N j, P_send N k) ] else []) ++
+  (if j =? k then [] else [ (P_send N j, P_ref N k); (P_send N j, P_upd N k) ]).
+Definition lock_table_n (N : nat) : list (nat * nat) :=
+  flat_map (pairs_client N) (seq 0 N) ++
+  flat_map (fun j => flat_map (pairs_cross N j) (seq 0 N)) (seq 0 N) ++
+  [ (P_cursor N, P_list N) ].
 (* colour-mapped screen: rfbProcessClientNormalMessage(FramebufferUpdateRequest) holds updateMutex and
    calls rfbSetClientColourMap -> rfbSendSetColourMapEntries -> LOCK(sendMutex), rfbWriteExact,
-   and on a write error rfbCloseClient -> LOCK(updateMutex) again *)
-Definition lock_table_palette : list (nat * nat) :=
-  lock_table ++ [ (M_upd 0, M_send 0); (M_upd 0, M_out 0); (M_upd 0, M_upd 0) ].
+   and on a write error rfbCloseClient -> LOCK(updateMutex) again; rfbNewFramebuffer with a changed format holds
+   sendMutex and calls setTranslateFunction -> rfbSendSetColourMapEntries -> LOCK(sendMutex) again (main.c:1208) *)
+Definition lock_table_palette_n (N : nat) : list (nat * nat) :=
+  lock_table_n N ++ [ (P_upd N 0, P_send N 0); (P_upd N 0, P_out N 0); (P_upd N 0, P_upd N 0); (P_send N 0, P_send N 0) ].
+(* the instance the correspondence run prints (three clients: every kind of pair occurs) *)
+Definition lock_table : list (nat * nat) := lock_table_n 3.
+Definition lock_table_palette : list (nat * nat) := lock_table_palette_n 3.
 
 Definition respects_rank (tbl : list (nat * nat)) : bool := forallb (fun p => fst p <? snd p) tbl.
 
